@@ -17,7 +17,7 @@ func init() {
 			"D4 batch quantiles store the single-query result for the same element. "+
 			"D5 the iteration contract of every store the sketch iterates through (the C04-D3 obligations re-evaluated: each bin reported once with its weight, the callback's stop verdict honoured immediately, channels closed). "+
 			"D6 coherence across Copy — the exact variant's Copy returns {inner.Copy(), statistics.Copy()} (a shared statistics object would let a later operation on either sketch change the other's count, extremes and sum). "+
-			"SHARED (obligations of other properties that decide clauses this property states too, re-evaluated here under their home rule ids): C06-D3 sketch-state writes (decoders only accumulate, so the count stays the absorbed weight when decoding into a non-empty sketch). "+
+			"SHARED (obligations of other properties that decide clauses this property states too, re-evaluated here under their home rule ids): C06-D3 sketch-state writes (decoders only accumulate, so the count stays the absorbed weight when decoding into a non-empty sketch). C10-D3 as C12-D7 (field tables of the statistics object: Copy, Clear, Reweight, Rescale, MergeWith, Add); C05-D9 as C12-D8 (named constructors give both sides the announced store kind). "+
 			"NOT DECIDED: 'within alpha of the true extremes', monotonicity in q, accuracy of the approximate sum (numeric).",
 		"one obligation per path of the extreme/emptiness tables, per iteration clause; non-trivial = a path evaluation was needed",
 		true, runC12)
@@ -42,6 +42,10 @@ func runC12(c *Ctx) {
 	// coherence across decoding: the decoders only accumulate into the sketch's state (an assignment would make the
 	// count disagree with the absorbed weight when decoding into a non-empty sketch)
 	c.shared(func() { c06Additive(c, a) }, keyMentions("/write/", "block-local"))
+	// the exact variant answers count / sum / extremes from its statistics object: its field tables (C10-D3), all of them
+	c10StatObject(c, a, "C12-D7", "")
+	// the named constructors give both sides the announced store kind (the clamped extremes of collapsing sketches depend on it)
+	c05SketchCtors(c, "C12-D8")
 }
 
 type emptiness struct {
